@@ -98,6 +98,7 @@ type Engine struct {
 	siteIDs     map[ssa.Instruction]int
 	joinMerge   bool
 	rpoCache    map[*ssa.Function][]int
+	liveCache   map[*ssa.Function][]map[ssa.Value]bool
 	JoinMerges  int
 	lazyBranch  bool
 	cutFn       string // ndAtFirstLoop: function whose first loop header ends the path
@@ -519,8 +520,8 @@ func (e *Engine) nextItem(work *[]*item) *item {
 	}
 	r := e.rpo(w[0].fr.fn)
 	best := len(w) - 1
-	for i := len(w) - 1; i >= 0; i-- {
-		if r[w[i].fr.block.Index] < r[w[best].fr.block.Index] {
+	for i := len(w) - 2; i >= 0; i-- {
+		if itemBefore(r, w[i], w[best]) {
 			best = i
 		}
 	}
@@ -531,7 +532,7 @@ func (e *Engine) nextItem(work *[]*item) *item {
 		for i := 0; i < len(w); {
 			o := w[i]
 			if o.fr.block == it.fr.block && o.fr.entered && o.fr.idx == it.fr.idx {
-				if m, ok := mergeItems(it, o); ok {
+				if m, ok := mergeItems(it, o, e.liveAtStart(it.fr.fn)[it.fr.block.Index]); ok {
 					it = m
 					e.JoinMerges++
 					w = append(w[:i], w[i+1:]...)
@@ -543,6 +544,127 @@ func (e *Engine) nextItem(work *[]*item) *item {
 	}
 	*work = w
 	return it
+}
+
+// itemBefore: a is scheduled before b when it is in an EARLIER loop iteration (loop headers
+// compared outermost first, i.e. in reverse post-order), or in the same iteration at a block
+// earlier in reverse post-order. Without the iteration test a path that skips the rest of a
+// loop body (continue) would reach the header first and run ahead of its siblings instead of
+// waiting for them at the join.
+func itemBefore(r []int, a, b *item) bool {
+	la, lb := a.fr.loops, b.fr.loops
+	if len(la) != 0 || len(lb) != 0 {
+		bestH, diff := -1, 0
+		for h, ca := range la {
+			if cb := lb[h]; ca != cb && (bestH < 0 || r[h] < r[bestH]) {
+				bestH, diff = h, ca-cb
+			}
+		}
+		for h, cb := range lb {
+			if _, ok := la[h]; !ok && cb != 0 && (bestH < 0 || r[h] < r[bestH]) {
+				bestH, diff = h, -cb
+			}
+		}
+		if bestH >= 0 {
+			return diff < 0
+		}
+	}
+	return r[a.fr.block.Index] < r[b.fr.block.Index]
+}
+
+// liveAtStart: per block, the SSA values that may still be read by an item sitting at the
+// start of the block with its phis already evaluated (classic backward liveness; phi operands
+// are uses on the incoming edge). Locals outside this set are dead at a join and need not
+// agree between the paths being merged.
+func (e *Engine) liveAtStart(fn *ssa.Function) []map[ssa.Value]bool {
+	if e.liveCache == nil {
+		e.liveCache = map[*ssa.Function][]map[ssa.Value]bool{}
+	}
+	if l, ok := e.liveCache[fn]; ok {
+		return l
+	}
+	n := len(fn.Blocks)
+	liveIn := make([]map[ssa.Value]bool, n) // before the phis
+	atStart := make([]map[ssa.Value]bool, n)
+	for i := range liveIn {
+		liveIn[i] = map[ssa.Value]bool{}
+		atStart[i] = map[ssa.Value]bool{}
+	}
+	isLocal := func(v ssa.Value) bool {
+		switch v.(type) {
+		case *ssa.Const, *ssa.Global, *ssa.Function, *ssa.Builtin:
+			return false
+		}
+		return v != nil
+	}
+	var ops []*ssa.Value
+	for changed := true; changed; {
+		changed = false
+		for bi := n - 1; bi >= 0; bi-- {
+			b := fn.Blocks[bi]
+			live := map[ssa.Value]bool{}
+			for _, sblk := range b.Succs {
+				for v := range liveIn[sblk.Index] {
+					live[v] = true
+				}
+				// phi operands flowing along b -> sblk; the phis themselves are defined there
+				for _, in := range sblk.Instrs {
+					ph, ok := in.(*ssa.Phi)
+					if !ok {
+						break
+					}
+					delete(live, ph)
+				}
+				for _, in := range sblk.Instrs {
+					ph, ok := in.(*ssa.Phi)
+					if !ok {
+						break
+					}
+					for pi, p := range sblk.Preds {
+						if p == b && isLocal(ph.Edges[pi]) {
+							live[ph.Edges[pi]] = true
+						}
+					}
+				}
+			}
+			np := numPhis(b)
+			for k := len(b.Instrs) - 1; k >= np; k-- {
+				in := b.Instrs[k]
+				if v, ok := in.(ssa.Value); ok {
+					delete(live, v)
+				}
+				ops = in.Operands(ops[:0])
+				for _, op := range ops {
+					if *op != nil && isLocal(*op) {
+						live[*op] = true
+					}
+				}
+			}
+			if len(live) != len(atStart[bi]) {
+				changed = true
+			} else {
+				for v := range live {
+					if !atStart[bi][v] {
+						changed = true
+						break
+					}
+				}
+			}
+			atStart[bi] = live
+			// before the phis: the phis' results are not live, (their operands are accounted
+			// for on the edges)
+			in := map[ssa.Value]bool{}
+			for v := range live {
+				in[v] = true
+			}
+			for k := 0; k < np; k++ {
+				delete(in, b.Instrs[k].(ssa.Value))
+			}
+			liveIn[bi] = in
+		}
+	}
+	e.liveCache[fn] = atStart
+	return atStart
 }
 
 func numPhis(b *ssa.BasicBlock) int {
@@ -558,35 +680,47 @@ func numPhis(b *ssa.BasicBlock) int {
 
 // mergeItems merges two paths of the same activation that have arrived at the start of the
 // same block (phis already evaluated). ok=false leaves both untouched.
-func mergeItems(a, b *item) (*item, bool) {
+func mergeItems(a, b *item, live map[ssa.Value]bool) (*item, bool) {
 	if len(a.st.writes) != len(b.st.writes) || len(a.st.allocs) != len(b.st.allocs) || len(a.fr.defers) != 0 || len(b.fr.defers) != 0 {
-		return nil, false
+		return joinFail(a, 1)
 	}
 	for i := range a.st.writes {
 		if a.st.writes[i] != b.st.writes[i] {
-			return nil, false
+			return joinFail(a, 2)
+		}
+	}
+	// paths split on the value of a term (ndConcrete etc.) are never merged back (cheap test first)
+	for k, ca := range a.st.eqs {
+		if cb, ok := b.st.eqs[k]; ok && cb != ca {
+			return joinFail(a, 10)
 		}
 	}
 	// only paths with the same loop history are merged (merging different iterations of a
 	// loop would turn concrete induction variables into symbolic ones)
 	if len(a.fr.loops) != len(b.fr.loops) {
-		return nil, false
+		return joinFail(a, 3)
 	}
 	for k, v := range a.fr.loops {
 		if b.fr.loops[k] != v {
-			return nil, false
+			return joinFail(a, 4)
 		}
 	}
 	// cheap shape pre-check (no terms are built for pairs that cannot merge anyway)
 	for k, va := range a.fr.locals {
+		if !live[k] {
+			continue
+		}
 		if vb, ok := b.fr.locals[k]; ok && !canMerge(va, vb) {
-			return nil, false
+			if joinDbg != "" {
+				mergeFail = fmt.Sprintf("local %s: %T vs %T", k.Name(), va, vb)
+			}
+			return joinFail(a, 5)
 		}
 	}
 	for id, oa := range a.st.heap {
 		if ob, ok := b.st.heap[id]; ok && oa != ob {
 			if oa.Kind != ob.Kind || !types.Identical(oa.Typ, ob.Typ) || (oa.Kind == KCell && !canMerge(oa.Val, ob.Val)) || len(oa.Elems) != len(ob.Elems) || len(oa.Entries) != len(ob.Entries) || (keepGeometry && oa.Kind == KBytes && oa.Arr != ob.Arr) {
-				return nil, false
+				return joinFail(a, 6)
 			}
 		}
 	}
@@ -597,17 +731,17 @@ func mergeItems(a, b *item) (*item, bool) {
 	}
 	ga := And(a.st.pc[lcp:]...)
 	if ga.IsTrue() || And(b.st.pc[lcp:]...).IsTrue() {
-		return nil, false // the suffix must tell the two paths apart
+		return joinFail(a, 7) // the suffix must tell the two paths apart
 	}
 	locals := make(map[ssa.Value]Value, len(a.fr.locals))
 	for k, va := range a.fr.locals {
 		vb, ok := b.fr.locals[k]
-		if !ok {
-			continue // defined on one path only: dead after the join (SSA dominance)
+		if !ok || !live[k] {
+			continue // defined on one path only, or never read again: dead after the join
 		}
 		m, ok := mergeVal(ga, va, vb)
 		if !ok {
-			return nil, false
+			return joinFail(a, 8)
 		}
 		locals[k] = m
 	}
@@ -615,7 +749,7 @@ func mergeItems(a, b *item) (*item, bool) {
 	ob := Outcome{St: b.st}
 	mo, ok := mergeOutcomes(lcp, &oa, &ob)
 	if !ok {
-		return nil, false
+		return joinFail(a, 9)
 	}
 	if debugCheck {
 		a.st.checkSlices("before-merge-a")
@@ -632,6 +766,16 @@ func mergeItems(a, b *item) (*item, bool) {
 		}
 	}
 	return &item{st: mo.St, fr: fr}, true
+}
+
+var joinDbg = os.Getenv("GOSYM_JOINDBG")
+
+// joinFail: (debug) report which test of mergeItems refused a join in the named function
+func joinFail(a *item, why int) (*item, bool) {
+	if joinDbg != "" && strings.Contains(a.fr.fn.String(), joinDbg) {
+		fmt.Fprintf(os.Stderr, "JOINFAIL %s block %d reason %d %s\n", a.fr.fn, a.fr.block.Index, why, mergeFail)
+	}
+	return nil, false
 }
 
 // ---------- operand evaluation ----------
@@ -778,6 +922,9 @@ func (pc *pathCtx) enterBlock(it *item) bool {
 	if it.fr.prev != nil && it.fr.loops[blk.Index] > 0 && !blk.Dominates(it.fr.prev) {
 		it.fr.loops[blk.Index] = 0
 	}
+	if !isLoopHeader(blk) {
+		goto counted // only loop headers are counted: the loop history is what joins compare
+	}
 	it.fr.loops[blk.Index]++
 	if isLoopHeader(blk) {
 		// loop-iteration signature of this activation (part of allocation identities)
@@ -797,6 +944,7 @@ func (pc *pathCtx) enterBlock(it *item) bool {
 		}
 		it.st.cur = sb.String()
 	}
+counted:
 	if it.fr.loops[blk.Index] > e.cfg.Unroll+1 {
 		if e.lazyBranch && e.solver.Check(append(append([]*Term(nil), it.st.pc...), e.exclude...)) == Unsat {
 			e.PathsEnded++
